@@ -14,12 +14,23 @@ fi
 echo "- G START pid=$$ name=$name" >> "$R/events.log"
 order=$(cat "$R/child.order" 2>/dev/null)
 code=$(cat "$R/child.exit" 2>/dev/null)
+# A real git/rg that is still writing when its reader goes away dies of SIGPIPE: do the same.
+emit() {
+    cat "$1"
+    rc=$?
+    if [ "$rc" -gt 128 ]; then
+        echo "- G SIGNALLED pid=$$ sig=$((rc - 128))" >> "$R/events.log"
+        exec 1>&- 2>&-
+        kill -$((rc - 128)) $$
+        sleep 5
+    fi
+}
 if [ "$order" = stderr_first ]; then
-    cat "$R/child.stderr" >&2
-    cat "$R/child.stdout"
+    emit "$R/child.stderr" >&2
+    emit "$R/child.stdout"
 else
-    cat "$R/child.stdout"
-    cat "$R/child.stderr" >&2
+    emit "$R/child.stdout"
+    emit "$R/child.stderr" >&2
 fi
 echo "- G EXIT pid=$$ code=$code" >> "$R/events.log"
 if [ "${code:-0}" -ge 1000 ]; then
